@@ -109,6 +109,20 @@ def one_repo(arg):
                              [prev] if prev else [], cts=1500000000 + v, msg=(b"m%d " % v) * (1 + 9000 * (v % 3 == 0)) + b"\n")
                 prev = c
             m.refs["refs/heads/bigtrees"] = prev
+            # a directory of > 128 KiB whose subdirectories hold the biggest blob, the deepest path and the widest tree: which
+            # name the footnotes give them depends on the parent being registered before its subdirectories
+            tiny = pool.new_blob(1)
+            ents = [G.Entry(G.FILE, b"entry-with-a-rather-long-file-name-%05d.dat" % j, blobs[j % len(blobs)]) for j in range(3300)]
+            ents += [G.Entry(G.TREE, b"sub-%04d" % j, G.Tree([G.Entry(G.FILE, b"f%d" % j, tiny)])) for j in range(rng.choice([5, 120, 400]))]
+            deep = G.Tree([G.Entry(G.FILE, b"bottom", pool.new_blob(2))])
+            for k in range(9):
+                deep = G.Tree([G.Entry(G.TREE, b"lvl%d" % k, deep)])
+            ents += [G.Entry(G.TREE, b"m", G.Tree([G.Entry(G.FILE, b"big.bin", pool.new_blob(150000))])),
+                     G.Entry(G.TREE, b"deep", deep),
+                     G.Entry(G.TREE, b"wide", G.Tree([G.Entry(G.FILE, b"w%05d" % j, tiny) for j in range(4000)])),
+                     G.Entry(G.TREE, b"zz-links", G.Tree([G.Entry(G.LINK, b"l%d" % j, tiny) for j in range(30)] +
+                                                         [G.Entry(G.GITLINK, b"s%d" % j, "%040x" % (j + 1)) for j in range(20)]))]
+            m.refs["refs/heads/hugedir"] = G.Commit(G.Tree(ents), [], cts=1500001000, msg=b"huge directory\n")
             if idx % 8 == 1:
                 from .C16 import big_tree_model
                 bm = big_tree_model(rng, versions=3)
